@@ -15,7 +15,7 @@ extra() {  # neighbouring checks that are known to see some mutants of this prop
   esac
 }
 ids=("$@"); [ ${#ids[@]} -eq 0 ] && ids=("")
-for d in seeded/*/; do
+for d in /verif/seeded/*/; do
   id=$(basename "$d"); [ -f "$d/patch.diff" ] || continue
   match=0; for p in "${ids[@]}"; do case "$id" in "$p"*) match=1;; esac; done; [ $match -eq 1 ] || continue
   prop=${id%%-*}
